@@ -9,6 +9,9 @@ package main
 //                dynamic type from an independent copy of annotations.proto (dynamically typed options)
 //   global       file and (dynamic) message types registered in the global registries, service named
 //                with NewService("verif.v1.Svc", ...) like generated code
+//   shadowed     an OLDER REVISION of the file (same path, Msg without its fields num and u32, Svc with the same
+//                method names) and its types are registered globally, as linked-in generated code would be;
+//                the service is supplied with NewServiceWithSchema from the fresh, current file
 
 import (
 	"fmt"
@@ -131,6 +134,39 @@ func schemaServiceFor(handler http.Handler, opts []vanguard.ServiceOption) *vang
 			panic(err)
 		}
 		return vanguard.NewServiceWithSchema(fd.Services().ByName("Svc"), handler, opts...)
+	case "shadowed":
+		globalOnce.Do(func() {
+			old := proto.Clone(schemaProto()).(*descriptorpb.FileDescriptorProto)
+			for _, m := range old.MessageType {
+				if m.GetName() == "Msg" {
+					kept := m.Field[:0:0]
+					for _, f := range m.Field {
+						if f.GetName() != "num" && f.GetName() != "u32" {
+							kept = append(kept, f)
+						}
+					}
+					m.Field = kept
+				}
+			}
+			fd, err := protodesc.NewFile(old, protoregistry.GlobalFiles)
+			if err != nil {
+				panic(err)
+			}
+			if err := protoregistry.GlobalFiles.RegisterFile(fd); err != nil {
+				panic(err)
+			}
+			msgs := fd.Messages()
+			for i := 0; i < msgs.Len(); i++ {
+				if err := protoregistry.GlobalTypes.RegisterMessage(dynamicpb.NewMessageType(msgs.Get(i))); err != nil {
+					panic(err)
+				}
+			}
+		})
+		fresh, err := protodesc.NewFile(schemaProto(), protoregistry.GlobalFiles)
+		if err != nil {
+			panic(err)
+		}
+		return vanguard.NewServiceWithSchema(fresh.Services().ByName("Svc"), handler, opts...)
 	case "global":
 		globalOnce.Do(func() {
 			fd := verifSchema()
